@@ -32,6 +32,7 @@ fn main() {
         "squash-replay" => squashx::cmd_replay(rest),
         "lib-dump" => detx::cmd_dump(rest),
         "refactor-replay" => refx::cmd_replay(rest),
+        "rename-replay" => refx::cmd_rename(rest),
         other => {
             eprintln!("unknown subcommand {}", other);
             2
